@@ -29,6 +29,18 @@ type C02Op struct {
 
 type C02Spec struct {
 	Ops []C02Op `json:"ops"`
+	// LastOnly: dump the table only after the last op (long histories: rows
+	// of hundreds of cells, tables of hundreds of rows)
+	LastOnly bool `json:"last_only,omitempty"`
+}
+
+// the text of the item with id x: id 0 is the empty string; equal ids are
+// equal texts (repeated header and cell contents are part of the input space)
+func c02Text(x int) string {
+	if x == 0 {
+		return ""
+	}
+	return strconv.Itoa(x)
 }
 
 // ---------------------------------------------------------------- scope (which ops denote a Go call)
@@ -233,6 +245,29 @@ func c02Random(r *RNG, maxLen, maxCells int) []C02Op {
 		}
 		return pick(r, cands), true
 	}
+	defer func() {
+		// in half of the histories item texts repeat or are empty
+		if r.Bool() {
+			var seen []int
+			reuse := func(x int) int {
+				if len(seen) > 0 && r.Pct(35) {
+					x = pick(r, seen)
+				} else if r.Pct(10) {
+					x = 0
+				}
+				seen = append(seen, x)
+				return x
+			}
+			for i := range h {
+				if h[i].O == "RowAdd" {
+					h[i].X = reuse(h[i].X)
+				}
+				for j := range h[i].Xs {
+					h[i].Xs[j] = reuse(h[i].Xs[j])
+				}
+			}
+		}
+	}()
 	for len(h) < n {
 		switch k := r.Intn(20); {
 		case k < 2:
@@ -277,11 +312,19 @@ func c02Random(r *RNG, maxLen, maxCells int) []C02Op {
 
 // ---------------------------------------------------------------- execution and dump
 
-func encZ(z int) byte {
-	if z < -5 || z > 249 {
-		return 255
+// encZ mirrors Base/Ops.v enc_z: one byte for -5..244, two for 245..1524
+func encZ(b []byte, zs ...int) []byte {
+	for _, z := range zs {
+		switch {
+		case z < -5 || z > 1524:
+			b = append(b, 255)
+		case z <= 244:
+			b = append(b, byte(z+5))
+		default:
+			b = append(b, byte(250+(z-245)/256), byte((z-245)%256))
+		}
 	}
-	return byte(z + 5)
+	return b
 }
 
 func encLen(b []byte, n int) []byte { return append(b, byte(n/250), byte(n%250)) }
@@ -294,9 +337,13 @@ func encBool(v bool) byte {
 }
 
 func cellID(c *tabular.Cell) int {
-	n, err := strconv.Atoi(c.String())
-	if err != nil || n < 0 || n > 249 {
-		return 254
+	s := c.String()
+	if s == "" {
+		return 0
+	}
+	n, err := strconv.Atoi(s)
+	if err != nil || n <= 0 || n > 240 || strconv.Itoa(n) != s {
+		return 244 // not a text the harness put in
 	}
 	return n
 }
@@ -305,7 +352,7 @@ func encCells(b []byte, cs []tabular.Cell) []byte {
 	b = encLen(b, len(cs))
 	for i := range cs {
 		loc := cs[i].Location()
-		b = append(b, encZ(loc.Row), encZ(loc.Column), encZ(cellID(&cs[i])))
+		b = encZ(b, loc.Row, loc.Column, cellID(&cs[i]))
 	}
 	return b
 }
@@ -317,7 +364,9 @@ type c02Dump struct {
 	Hits         int
 	Cols         string
 	bytes        []byte
-	staleCols    bool
+	staleCols    bool // a row has more cells than NColumns()
+	staleHeader  bool // the header has more cells than NColumns()
+	badLoc       bool // a cell found by CellAt(r,c) reports another Location()
 }
 
 // dumpTable reads everything C02 talks about through the public API.
@@ -325,12 +374,18 @@ func dumpTable(t *tabular.ATable) c02Dump {
 	var d c02Dump
 	var b []byte
 	d.NRows, d.NCols = t.NRows(), t.NColumns()
-	b = append(b, encZ(d.NRows), encZ(d.NCols))
+	b = encZ(b, d.NRows, d.NCols)
 	cellsStr := func(cs []tabular.Cell) string {
 		var sb strings.Builder
 		for i := range cs {
+			if i >= 12 && i < len(cs)-6 {
+				if i == 12 {
+					fmt.Fprintf(&sb, " ...(%d cells)...", len(cs))
+				}
+				continue
+			}
 			l := cs[i].Location()
-			fmt.Fprintf(&sb, " %s@(%d,%d)", cs[i].String(), l.Row, l.Column)
+			fmt.Fprintf(&sb, " %q@(%d,%d)", cs[i].String(), l.Row, l.Column)
 		}
 		return sb.String()
 	}
@@ -339,6 +394,7 @@ func dumpTable(t *tabular.ATable) c02Dump {
 	} else {
 		b = append(b, 1)
 		b = encCells(b, h)
+		d.staleHeader = len(h) > d.NCols
 		hs := []string{cellsStr(h)}
 		d.Header = &hs
 	}
@@ -348,7 +404,8 @@ func dumpTable(t *tabular.ATable) c02Dump {
 	for _, r := range rows {
 		cs := r.Cells()
 		loc := r.Location()
-		b = append(b, encBool(r.IsSeparator()), encBool(cs == nil), encZ(loc.Row), encZ(loc.Column))
+		b = append(b, encBool(r.IsSeparator()), encBool(cs == nil))
+		b = encZ(b, loc.Row, loc.Column)
 		b = encCells(b, cs)
 		if len(cs) > w {
 			w = len(cs)
@@ -356,7 +413,9 @@ func dumpTable(t *tabular.ATable) c02Dump {
 		if len(cs) > d.NCols {
 			d.staleCols = true
 		}
-		d.Rows = append(d.Rows, fmt.Sprintf("sep=%v nil=%v loc=(%d,%d) cells:%s", r.IsSeparator(), cs == nil, loc.Row, loc.Column, cellsStr(cs)))
+		if len(d.Rows) < 40 {
+			d.Rows = append(d.Rows, fmt.Sprintf("sep=%v nil=%v loc=(%d,%d) cells:%s", r.IsSeparator(), cs == nil, loc.Row, loc.Column, cellsStr(cs)))
+		}
 	}
 	var hits []byte
 	n := 0
@@ -366,11 +425,14 @@ func dumpTable(t *tabular.ATable) c02Dump {
 			switch {
 			case cell != nil && err == nil:
 				l := cell.Location()
-				hits = append(hits, encZ(r), encZ(c), encZ(l.Row), encZ(l.Column), encZ(cellID(cell)))
+				hits = encZ(hits, r, c, l.Row, l.Column, cellID(cell))
+				if l.Row != r || l.Column != c {
+					d.badLoc = true
+				}
 				n++
 			case cell == nil && err != nil:
 			default: // (cell, err) both or neither: not an answer
-				hits = append(hits, encZ(r), encZ(c), encZ(-9), encZ(-9), encZ(0))
+				hits = encZ(hits, r, c, -9, -9, 0)
 				n++
 			}
 		}
@@ -406,7 +468,7 @@ func c02GoLine(op C02Op) string {
 	items := func(xs []int) string {
 		ss := make([]string, len(xs))
 		for i, x := range xs {
-			ss[i] = fmt.Sprintf("%q", strconv.Itoa(x))
+			ss[i] = fmt.Sprintf("%q", c02Text(x))
 		}
 		return strings.Join(ss, ", ")
 	}
@@ -419,9 +481,9 @@ func c02GoLine(op C02Op) string {
 		return fmt.Sprintf("r%d := t.AppendNewRow()", op.R)
 	case "RowAdd":
 		if op.R == 0 {
-			return fmt.Sprintf("t.AllRows()[%d].Add(tabular.NewCell(%q))", op.I, strconv.Itoa(op.X))
+			return fmt.Sprintf("t.AllRows()[%d].Add(tabular.NewCell(%q))", op.I, c02Text(op.X))
 		}
-		return fmt.Sprintf("r%d.Add(tabular.NewCell(%q))", op.R, strconv.Itoa(op.X))
+		return fmt.Sprintf("r%d.Add(tabular.NewCell(%q))", op.R, c02Text(op.X))
 	case "AddRow":
 		return fmt.Sprintf("t.AddRow(r%d)", op.R)
 	case "AddRowItems":
@@ -438,13 +500,24 @@ func c02GoLine(op C02Op) string {
 
 // c02Exec replays the history; ops that denote no Go call (a shrink artefact)
 // are skipped, as the model and the spec skip them.
-func c02Exec(ops []C02Op) (out []byte, res c02Result, panicked bool) {
+func c02Exec(ops []C02Op, lastOnly bool) (out []byte, res c02Result, panicked bool) {
 	t := tabular.New()
 	vars := map[int]*tabular.Row{}
 	attached := map[int]bool{}
 	lines := []string{"t := tabular.New()"}
-	for _, op := range ops {
-		lines = append(lines, c02GoLine(op))
+	for i := 0; i < len(ops); {
+		j := i + 1
+		for j < len(ops) && c02SameCall(ops[i], ops[j]) {
+			j++
+		}
+		if j-i >= 4 {
+			lines = append(lines, fmt.Sprintf("%s /* %d such calls, see the spec for the items */", c02GoLine(ops[i]), j-i))
+		} else {
+			for _, op := range ops[i:j] {
+				lines = append(lines, c02GoLine(op))
+			}
+		}
+		i = j
 	}
 	res.Go = strings.Join(lines, "; ")
 	k := 0
@@ -459,7 +532,7 @@ func c02Exec(ops []C02Op) (out []byte, res c02Result, panicked bool) {
 	items := func(xs []int) []interface{} {
 		its := make([]interface{}, len(xs))
 		for i, x := range xs {
-			its[i] = strconv.Itoa(x)
+			its[i] = c02Text(x)
 		}
 		return its
 	}
@@ -483,7 +556,7 @@ func c02Exec(ops []C02Op) (out []byte, res c02Result, panicked bool) {
 				row = vars[op.R]
 			}
 			if row != nil {
-				row.Add(tabular.NewCell(strconv.Itoa(op.X)))
+				row.Add(tabular.NewCell(c02Text(op.X)))
 			}
 		case "AddRow":
 			if row := vars[op.R]; row != nil && !attached[op.R] {
@@ -507,24 +580,129 @@ func c02Exec(ops []C02Op) (out []byte, res c02Result, panicked bool) {
 			rr = rr[:0]
 			_ = rr
 		}
+		if lastOnly {
+			continue
+		}
 		d := dumpTable(t)
 		out = append(out, d.bytes...)
-		if d.staleCols && res.Sig == "" {
-			res.Sig = "ncolumns-below-row-size"
+		if res.Sig == "" {
+			res.Sig = d.sig()
 		}
+		res.Last = &d
+	}
+	if lastOnly {
+		d := dumpTable(t)
+		out = d.bytes
+		res.Sig = d.sig()
 		res.Last = &d
 	}
 	return
 }
 
-func c02CoqOp(op C02Op) string {
-	ids := func(xs []int) string {
-		ss := make([]string, len(xs))
-		for i, x := range xs {
-			ss[i] = cqN(uint64(x))
-		}
-		return cqList(ss)
+// a rough class of what is wrong with a dump, to group failures (the verdict
+// itself is Coq's)
+func (d *c02Dump) sig() string {
+	switch {
+	case d.staleCols:
+		return "ncolumns-below-row-size"
+	case d.staleHeader:
+		return "ncolumns-below-header-size"
+	case d.badLoc:
+		return "cell-location-differs-from-its-address"
 	}
+	return ""
+}
+
+// the same call up to the item: Row.Add on the same row, or an identical op
+// that names no new row
+func c02SameCall(a, b C02Op) bool {
+	if a.O != b.O || a.R != b.R || a.I != b.I {
+		return false
+	}
+	switch a.O {
+	case "RowAdd":
+		return true
+	case "AddSeparator", "MutateAllRowsCopy":
+		return true
+	case "AddRowItems", "AddHeaders":
+		if len(a.Xs) != len(b.Xs) {
+			return false
+		}
+		for i := range a.Xs {
+			if a.Xs[i] != b.Xs[i] {
+				return false
+			}
+		}
+		return true
+	}
+	return false
+}
+
+func c02CoqIDs(xs []int) string {
+	if len(xs) >= 8 {
+		b := make([]byte, len(xs))
+		for i, x := range xs {
+			b[i] = byte(x)
+		}
+		return cqBytes(b)
+	}
+	ss := make([]string, len(xs))
+	for i, x := range xs {
+		ss[i] = cqN(uint64(x))
+	}
+	return cqList(ss)
+}
+
+// c02CoqHistory writes the history run-length compressed (Run/C02Run.v adds,
+// times): literal elaboration, not evaluation, is what long histories cost.
+func c02CoqHistory(ops []C02Op) string {
+	var segs []string
+	var lit []string
+	flush := func() {
+		if len(lit) > 0 {
+			segs = append(segs, cqList(lit))
+			lit = nil
+		}
+	}
+	for i := 0; i < len(ops); {
+		j := i + 1
+		for j < len(ops) && c02SameCall(ops[i], ops[j]) {
+			j++
+		}
+		switch {
+		case j-i >= 4 && ops[i].O == "RowAdd":
+			flush()
+			xs := make([]int, 0, j-i)
+			for _, op := range ops[i:j] {
+				xs = append(xs, op.X)
+			}
+			ref := fmt.Sprintf("(RName %s)", cqNat(ops[i].R))
+			if ops[i].R == 0 {
+				ref = fmt.Sprintf("(RIdx %s)", cqNat(ops[i].I))
+			}
+			segs = append(segs, fmt.Sprintf("adds %s %s", ref, c02CoqIDs(xs)))
+		case j-i >= 4:
+			flush()
+			segs = append(segs, fmt.Sprintf("times %s [%s]", cqNat(j-i), c02CoqOp(ops[i])))
+		default:
+			for _, op := range ops[i:j] {
+				lit = append(lit, c02CoqOp(op))
+			}
+		}
+		i = j
+	}
+	flush()
+	if len(segs) == 0 {
+		return "[]"
+	}
+	if len(segs) == 1 {
+		return segs[0]
+	}
+	return "(" + strings.Join(segs, " ++ ") + ")"
+}
+
+func c02CoqOp(op C02Op) string {
+	ids := c02CoqIDs
 	switch op.O {
 	case "NewRow", "NewRowSizedFor", "AppendNewRow", "AddRow":
 		return fmt.Sprintf("%s %s", op.O, cqNat(op.R))
@@ -550,6 +728,7 @@ func c02Tags(ops []C02Op, res c02Result) []string {
 		}
 	}
 	rowsBefore := false
+	usedID := map[int]bool{}
 	for _, op := range ops {
 		add("op=" + op.O)
 		switch op.O {
@@ -585,6 +764,30 @@ func c02Tags(ops []C02Op, res c02Result) []string {
 		if len(op.Xs) > 9 {
 			add("more-than-9-cells-at-once")
 		}
+		ids := op.Xs
+		if op.O == "RowAdd" {
+			ids = []int{op.X}
+		}
+		for _, x := range ids {
+			if x == 0 {
+				add("empty-text")
+			} else if usedID[x] {
+				add("repeated-text")
+			}
+			usedID[x] = true
+		}
+		if op.O == "AddHeaders" {
+			hs := map[int]bool{}
+			for j, x := range op.Xs {
+				if hs[x] {
+					add("header-repeats-a-text")
+					if j == len(op.Xs)-1 {
+						add("header-ends-in-a-repeat")
+					}
+				}
+				hs[x] = true
+			}
+		}
 		s.apply(op)
 		rowsBefore = len(s.rowNamed) > 0
 	}
@@ -592,6 +795,12 @@ func c02Tags(ops []C02Op, res c02Result) []string {
 		add(fmt.Sprintf("ncols=%d", min(res.Last.NCols, 12)/3*3))
 		if res.Last.NCols > 9 {
 			add("crosses-columns-capacity")
+		}
+		if res.Last.NCols > 255 {
+			add("more-than-255-columns")
+		}
+		if res.Last.NRows > 255 {
+			add("more-than-255-rows")
 		}
 	}
 	if res.Panic != "" {
@@ -611,50 +820,96 @@ func c02Size(ops []C02Op) int {
 	return n
 }
 
-// one-step reductions: drop one op (and what depends on it, renumbering
-// AllRows indices after a dropped attach), drop one item
-func c02Shrink(ops []C02Op) [][]C02Op {
-	var out [][]C02Op
-	for k := range ops {
-		// position of the attach performed by op k, if any
-		s := newC02Scope()
-		for _, op := range ops[:k] {
-			s.apply(op)
+// c02DropOp removes op k and what depends on it (the ops on a row variable it
+// creates), renumbering AllRows indices after a dropped attach.
+func c02DropOp(ops []C02Op, k int) []C02Op {
+	s := newC02Scope()
+	for _, op := range ops[:k] {
+		s.apply(op)
+	}
+	before := len(s.rowNamed)
+	s.apply(ops[k])
+	attachPos := -1
+	if len(s.rowNamed) > before {
+		attachPos = before
+	}
+	creates := 0
+	if o := ops[k].O; o == "NewRow" || o == "NewRowSizedFor" || o == "AppendNewRow" {
+		creates = ops[k].R
+	}
+	var c []C02Op
+	c = append(c, ops[:k]...)
+	for _, op := range ops[k+1:] {
+		if creates != 0 && op.R == creates && (op.O == "RowAdd" || op.O == "AddRow") {
+			continue
 		}
-		before := len(s.rowNamed)
-		s.apply(ops[k])
-		attachPos := -1
-		if len(s.rowNamed) > before {
-			attachPos = before
-		}
-		creates := 0
-		if o := ops[k].O; o == "NewRow" || o == "NewRowSizedFor" || o == "AppendNewRow" {
-			creates = ops[k].R
-		}
-		var c []C02Op
-		c = append(c, ops[:k]...)
-		for _, op := range ops[k+1:] {
-			if creates != 0 && op.R == creates && (op.O == "RowAdd" || op.O == "AddRow") {
+		if attachPos >= 0 && op.O == "RowAdd" && op.R == 0 {
+			if op.I == attachPos {
 				continue
 			}
-			if attachPos >= 0 && op.O == "RowAdd" && op.R == 0 {
-				if op.I == attachPos {
-					continue
-				}
-				if op.I > attachPos {
-					op.I--
-				}
+			if op.I > attachPos {
+				op.I--
 			}
-			c = append(c, op)
 		}
+		c = append(c, op)
+	}
+	return c
+}
+
+// one-step reductions: drop one op, drop one item; on long histories whole
+// halves of a run of like calls and of an item list (a run is then only
+// shortened from its ends, so the candidate count stays small)
+func c02Shrink(ops []C02Op) [][]C02Op {
+	var out [][]C02Op
+	keep := func(c []C02Op) {
 		if c02Valid(c) {
 			out = append(out, c)
 		}
-		for j := range ops[k].Xs {
+	}
+	inner := make([]bool, len(ops)) // strictly inside a long run
+	for i := 0; i < len(ops); {
+		j := i + 1
+		for j < len(ops) && c02SameCall(ops[i], ops[j]) {
+			j++
+		}
+		if n := j - i; n >= 8 {
+			for k := i + 1; k < j-1; k++ {
+				inner[k] = true
+			}
+			// drop the first half of the run, or its last 2^k ops for every k
+			parts := [][2]int{{i, i + n/2}}
+			for w := 2; w < n; w *= 2 {
+				parts = append(parts, [2]int{j - w, j})
+			}
+			for _, part := range parts {
+				c := append([]C02Op{}, ops...)
+				for k := part[1] - 1; k >= part[0]; k-- {
+					c = c02DropOp(c, k)
+				}
+				keep(c)
+			}
+		}
+		i = j
+	}
+	for k := range ops {
+		if !inner[k] {
+			keep(c02DropOp(ops, k))
+		}
+		xs := ops[k].Xs
+		setXs := func(nx []int) {
 			c := append([]C02Op{}, ops...)
-			xs := append(append([]int{}, ops[k].Xs[:j]...), ops[k].Xs[j+1:]...)
-			c[k].Xs = xs
+			c[k].Xs = append([]int{}, nx...)
 			out = append(out, c)
+		}
+		if n := len(xs); n >= 8 {
+			setXs(xs[n/2:])
+			for w := 1; w < n; w *= 2 {
+				setXs(xs[:n-w])
+			}
+		} else {
+			for j := range xs {
+				setXs(append(append([]int{}, xs[:j]...), xs[j+1:]...))
+			}
 		}
 		if ops[k].O == "NewRowSizedFor" {
 			c := append([]C02Op{}, ops...)
@@ -662,31 +917,181 @@ func c02Shrink(ops []C02Op) [][]C02Op {
 			out = append(out, c)
 		}
 		// AllRows()[i].Add -> r.Add when the row has a variable
-		if ops[k].O == "RowAdd" && ops[k].R == 0 && ops[k].I < before && s.rowNamed[ops[k].I] != 0 {
-			c := append([]C02Op{}, ops...)
-			c[k].R, c[k].I = s.rowNamed[ops[k].I], 0
-			out = append(out, c)
+		if ops[k].O == "RowAdd" && ops[k].R == 0 && !inner[k] {
+			s := newC02Scope()
+			for _, op := range ops[:k] {
+				s.apply(op)
+			}
+			if ops[k].I < len(s.rowNamed) && s.rowNamed[ops[k].I] != 0 {
+				c := append([]C02Op{}, ops...)
+				c[k].R, c[k].I = s.rowNamed[ops[k].I], 0
+				out = append(out, c)
+			}
 		}
 	}
 	return out
+}
+
+// ---------------------------------------------------------------- contents and sizes
+
+// every list over the items {1, 2, 0 (the empty text)} of length lo..hi:
+// repeated and blank contents
+func c02Patterns(lo, hi int) [][]int {
+	var out [][]int
+	var rec func(p []int)
+	rec = func(p []int) {
+		if len(p) >= lo {
+			out = append(out, append([]int{}, p...))
+		}
+		if len(p) == hi {
+			return
+		}
+		for _, x := range []int{1, 2, 0} {
+			rec(append(p, x))
+		}
+	}
+	rec(nil)
+	return out
+}
+
+func c02Adds(r, i int, xs []int) []C02Op {
+	out := make([]C02Op, len(xs))
+	for k, x := range xs {
+		out[k] = C02Op{O: "RowAdd", R: r, I: i, X: x}
+	}
+	return out
+}
+
+func c02Cat(parts ...[]C02Op) []C02Op {
+	var out []C02Op
+	for _, p := range parts {
+		out = append(out, p...)
+	}
+	return out
+}
+
+// histories in which header and cell contents repeat or are empty (what a
+// library that keys anything on the text would trip over), exhaustively over
+// short patterns and a few shapes around them
+func c02Contents(add func([]C02Op), thorough bool) {
+	one := func(o C02Op) []C02Op { return []C02Op{o} }
+	hdr := func(p []int) []C02Op { return one(C02Op{O: "AddHeaders", Xs: p}) }
+	items := func(p []int) []C02Op { return one(C02Op{O: "AddRowItems", Xs: p}) }
+	hi := 3
+	if thorough {
+		hi = 4
+	}
+	for _, p := range c02Patterns(0, hi) {
+		add(hdr(p))
+		for _, q := range [][]int{{}, {1}, {1, 1}, {0, 0, 0}} {
+			add(c02Cat(hdr(p), items(q)))
+		}
+		for _, q := range [][]int{{1}, {0, 0}} {
+			add(c02Cat(items(q), hdr(p)))
+		}
+		add(c02Cat(one(C02Op{O: "AppendNewRow", R: 1}), hdr(p), c02Adds(1, 0, []int{1})))
+		if len(p) > 0 {
+			add(items(p))
+			add(c02Cat(one(C02Op{O: "NewRow", R: 1}), c02Adds(1, 0, p), one(C02Op{O: "AddRow", R: 1})))
+			add(c02Cat(one(C02Op{O: "AppendNewRow", R: 1}), c02Adds(1, 0, p)))
+			add(c02Cat(items(p[:1]), c02Adds(0, 0, p[1:])))
+		}
+	}
+	// header patterns of 4 and 5 cells on their own (trailing repeats and blanks)
+	for _, p := range c02Patterns(4, 5) {
+		if !thorough && len(p) == 5 && p[0] != 1 {
+			continue // by symmetry of the two non-empty items
+		}
+		add(hdr(p))
+	}
+	// a header replaced by another
+	for _, p := range c02Patterns(0, 2) {
+		for _, q := range c02Patterns(0, 2) {
+			add(c02Cat(hdr(p), hdr(q)))
+		}
+	}
+}
+
+// rows and tables whose sizes sit at and beyond 2^8 (and 2^10): the table is
+// dumped once, after the last op
+func c02Sizes(r *RNG, add func([]C02Op), thorough bool) {
+	seqIDs := func(n, from int) []int {
+		xs := make([]int, n)
+		for i := range xs {
+			xs[i] = (from+i)%200 + 1
+		}
+		return xs
+	}
+	one := func(o C02Op) []C02Op { return []C02Op{o} }
+	sep := one(C02Op{O: "AddSeparator"})
+	sizes := []int{255, 256, 257, 300, 600}
+	if thorough {
+		sizes = append(sizes, 254, 258, 511, 512, 513, 767, 768, 769, 260+r.Intn(740))
+	}
+	for _, n := range sizes {
+		xs := seqIDs(n, n)
+		// AddRowItems; AddHeaders; pre-built row; AppendNewRow then Add; Add
+		// before and after attaching; Add through AllRows()[i]
+		add(c02Cat(sep, one(C02Op{O: "AddRowItems", Xs: xs})))
+		add(one(C02Op{O: "AddHeaders", Xs: xs}))
+		add(c02Cat(one(C02Op{O: "NewRow", R: 1}), c02Adds(1, 0, xs), sep, one(C02Op{O: "AddRow", R: 1})))
+		add(c02Cat(sep, one(C02Op{O: "AppendNewRow", R: 1}), c02Adds(1, 0, xs)))
+		k := 250 + r.Intn(5)
+		if k >= n {
+			k = n / 2
+		}
+		add(c02Cat(one(C02Op{O: "NewRowSizedFor", R: 1}), c02Adds(1, 0, xs[:k]), one(C02Op{O: "AddRow", R: 1}), c02Adds(1, 0, xs[k:])))
+		add(c02Cat(one(C02Op{O: "AddRowItems", Xs: xs[:1]}), c02Adds(0, 0, xs[1:])))
+	}
+	for _, n := range []int{1030} {
+		xs := seqIDs(n, 7)
+		add(one(C02Op{O: "AddRowItems", Xs: xs}))
+		add(c02Cat(one(C02Op{O: "AddHeaders", Xs: xs[:n-1]}), one(C02Op{O: "AppendNewRow", R: 1}), c02Adds(1, 0, xs)))
+	}
+	// many rows
+	rowCounts := []int{255, 256, 257, 300}
+	if thorough {
+		rowCounts = append(rowCounts, 600, 1030)
+	}
+	for _, n := range rowCounts {
+		rep := func(o C02Op, n int) []C02Op {
+			out := make([]C02Op, n)
+			for i := range out {
+				out[i] = o
+			}
+			return out
+		}
+		item := C02Op{O: "AddRowItems", Xs: []int{3}}
+		// the last rows are added to afterwards, by variable and by index
+		add(c02Cat(rep(C02Op{O: "AddSeparator"}, n-1), one(C02Op{O: "AppendNewRow", R: 1}), c02Adds(1, 0, []int{1, 2})))
+		add(c02Cat(rep(item, n), c02Adds(0, n-1, []int{4}), c02Adds(0, 0, []int{5})))
+		add(c02Cat(one(C02Op{O: "NewRow", R: 1}), c02Adds(1, 0, []int{1}), rep(item, n/2), rep(C02Op{O: "AddSeparator"}, n-n/2-1), one(C02Op{O: "AddRow", R: 1}), c02Adds(1, 0, []int{2})))
+	}
 }
 
 func init() {
 	register(&Prop{
 		ID:       "C02",
 		Imports:  "From Tab Require Import Run.Glue Run.C02Run.",
-		CaseType: "(list (op N) * res (list N))",
+		CaseType: "(list (op N) * bool * res (list N))",
 		CaseFn:   "C02_case",
 		ModelFn:  "C02_model",
 		Rule: "build histories over {AddHeaders, AddRowItems, AddSeparator, AppendNewRow, NewRow, NewRowSizedFor, Row.Add on any existing row (a row variable, detached or attached, or AllRows()[i] incl. separators), " +
-			"AddRow of any still-detached row, mutate the AllRows() copy}; every op denotes a Go call and a pre-built row is attached at most once (wf_hist); the table is dumped after every op; " +
+			"AddRow of any still-detached row, mutate the AllRows() copy}; every op denotes a Go call and a pre-built row is attached at most once (wf_hist); item texts may repeat and may be empty; " +
+			"the table is dumped after every op (after the last op only for the histories that build rows of 255..1030 cells or tables of 255..300 rows); " +
 			"a case is non-trivial when the table ends with at least one row or a header; distinct = distinct history",
-		Exhaustive: "all valid histories of exactly 3 ops over the full alphabet (cell counts 0/1/2) and exactly 4 ops over the reduced alphabet (cell counts 0/1, no NewRowSizedFor) in the quick tier, " +
-			"4 (full) and 5 (reduced) in the thorough tier; each is dumped after every op, so all shorter histories are covered as prefixes",
+		Exhaustive: "all valid histories of exactly 3 ops over the full alphabet (cell counts 0/1/2, distinct items) and exactly 4 ops over the reduced alphabet (cell counts 0/1, no NewRowSizedFor) in the quick tier, " +
+			"4 (full) and 5 (reduced) in the thorough tier; each is dumped after every op, so all shorter histories are covered as prefixes; " +
+			"all header / row contents of length <= 3 (4 thorough) over {two texts, the empty text} in 12 shapes, all header contents of length 4 (and 5) alone, all pairs of successive headers of length <= 2",
 		Gen: func(r *RNG, tier string) []json.RawMessage {
 			var out []json.RawMessage
 			add := func(h []C02Op) { out = append(out, mustJSON(C02Spec{Ops: h})) }
-			if tier == "thorough" {
+			var big []json.RawMessage
+			addLast := func(h []C02Op) { big = append(big, mustJSON(C02Spec{Ops: h, LastOnly: true})) }
+			thorough := tier == "thorough"
+			c02Contents(add, thorough)
+			c02Sizes(r, addLast, thorough)
+			if thorough {
 				c02Enum(4, true, add)
 				c02Enum(5, false, add)
 			} else {
@@ -694,35 +1099,46 @@ func init() {
 				c02Enum(4, false, add)
 			}
 			n := 150
-			if tier == "thorough" {
+			if thorough {
 				n = 3000
 			}
 			for i := 0; i < n; i++ {
 				add(c02Random(r, 25, 12))
 			}
-			return out
+			// the long histories cost the most to evaluate: spread them
+			// evenly, so that no one shard carries them all
+			mixed := make([]json.RawMessage, 0, len(out)+len(big))
+			step := len(out)/(len(big)+1) + 1
+			for i, c := range out {
+				if i%step == 0 && len(big) > 0 {
+					mixed = append(mixed, big[0])
+					big = big[1:]
+				}
+				mixed = append(mixed, c)
+			}
+			return append(mixed, big...)
 		},
 		Run: func(spec json.RawMessage) CaseOut {
 			var cs C02Spec
 			if err := json.Unmarshal(spec, &cs); err != nil {
 				panic(err)
 			}
-			dump, res, panicked := c02Exec(cs.Ops)
-			ops := make([]string, len(cs.Ops))
-			for i, op := range cs.Ops {
-				ops[i] = c02CoqOp(op)
-			}
+			dump, res, panicked := c02Exec(cs.Ops, cs.LastOnly)
 			obs := "(Ok " + cqBytes(dump) + ")"
 			if panicked {
 				obs = "Panic"
 			}
-			h := cqList(ops)
+			h := c02CoqHistory(cs.Ops)
+			tags := c02Tags(cs.Ops, res)
+			if cs.LastOnly {
+				tags = append(tags, "dumped-after-last-op-only")
+			}
 			return CaseOut{
-				Coq:        cqPair(h, obs),
+				Coq:        "(" + h + ", " + cqBool(!cs.LastOnly) + ", " + obs + ")",
 				Desc:       res,
 				Size:       c02Size(cs.Ops),
-				Tags:       c02Tags(cs.Ops, res),
-				Key:        h,
+				Tags:       tags,
+				Key:        h + cqBool(cs.LastOnly),
 				Nontrivial: res.Last != nil && (res.Last.NRows > 0 || res.Last.Header != nil),
 			}
 		},
@@ -733,7 +1149,7 @@ func init() {
 			}
 			var out []json.RawMessage
 			for _, h := range c02Shrink(cs.Ops) {
-				out = append(out, mustJSON(C02Spec{Ops: h}))
+				out = append(out, mustJSON(C02Spec{Ops: h, LastOnly: cs.LastOnly}))
 			}
 			return out
 		},
